@@ -1,8 +1,75 @@
 import Driver.Util
-/-! Driver commands: Repl (stub — replaced by the real handler). -/
+import Slock.Model.Repl
+/-! Driver commands for the replication buffer queue and the SYNC handshake model (C09).
+
+  replq <initial size> <max size> <op>;<op>;…        → <obs>;<obs>;…
+ops (cursor names are decimal numbers):
+  push:<id>:<ord>:<dlen> → ok            cursor:<n> → ok   (NewReplicationBufferQueueCursor)
+  add:<n> rm:<n> → ok                    (AddPoll / RemovePoll)
+  pop:<n> head:<n> → ok:<id>:<ord>:<dlen>:<seq> | eof | oob
+  search:<n>:<id> → ok:… | eof | nf      ack:<n> → ok | noop   (SendProcess: writed=true; currentItem.pollIndex++)
+  st → <seq>.<used>.<bufferSize>.<pollCount>.<dupCount>/L<sid>,<seq>,<pollCount>,<pollIndex>,<dlen>|…/F<sid>,<seq>,<pollCount>,<pollIndex>|…
+An unknown cursor prints `nocursor`; a panic prints `panic` and ends the line.
+
+  replsync <initial size> <max size> <ev>;<ev>;…     → <obs>;<obs>;…      (see Slock.Repl.Sync in Model/Repl.lean)
+-/
 namespace Driver
+open Slock.Repl
+
+def rShowItemL (it : Item) : String := s!"{it.sid},{it.seq},{it.pollCount},{it.pollIndex},{it.dlen}"
+def rShowItemF (it : Item) : String := s!"{it.sid},{it.seq},{it.pollCount},{it.pollIndex}"
+
+def rShowQ (q : Q) : String :=
+  s!"{q.seq}.{q.used}.{q.bufSize}.{q.pollCount}.{q.dupCount}/L" ++ "|".intercalate (q.live.map rShowItemL)
+    ++ "/F" ++ "|".intercalate (q.free.map rShowItemF)
+
+def rShowRes (r : PopRes) (c : Cursor) : String :=
+  match r with
+  | .ok => s!"ok:{c.bufId}:{c.bufOrd}:{c.dlen}:{c.seq}"
+  | .eof => "eof"
+  | .oob => "oob"
+  | .nf => "nf"
+  | .panic => "panic"
+
+def rShowObs : Obs → String
+  | .done => "ok"
+  | .res r c => rShowRes r c
+  | .acked b => if b then "ok" else "noop"
+  | .noCursor => "nocursor"
+
+def rParseOp (op : String) : Option Op :=
+  match op.splitOn ":" with
+  | ["push", a, b, c] => do pure (.push (← a.toNat?) (← b.toNat?) (← c.toNat?))
+  | ["cursor", n] => do pure (.cursor (← n.toNat?))
+  | ["add", n] => do pure (.add (← n.toNat?))
+  | ["rm", n] => do pure (.rm (← n.toNat?))
+  | ["pop", n] => do pure (.pop (← n.toNat?))
+  | ["ack", n] => do pure (.ack (← n.toNat?))
+  | ["head", n] => do pure (.head (← n.toNat?))
+  | ["search", n, i] => do pure (.search (← n.toNat?) (← i.toNat?))
+  | _ => none
+
+def rRun : Sys → List String → List String → List String
+  | _, [], acc => acc.reverse
+  | s, op :: ops, acc =>
+    if op == "st" then rRun s ops (rShowQ s.q :: acc)
+    else match rParseOp op with
+      | none => ("bad-op" :: acc).reverse
+      | some o =>
+        let r := step s o
+        match r.2 with
+        | .res .panic _ => ("panic" :: acc).reverse
+        | ob => rRun r.1 ops (rShowObs ob :: acc)
 
 def handleRepl : List String → Option String
+  | ["replq", b, m] => do
+    let _ ← b.toNat?
+    let _ ← m.toNat?
+    some ""
+  | ["replq", b, m, ops] => do
+    let b ← b.toNat?
+    let m ← m.toNat?
+    some (";".intercalate (rRun (Sys.init b m) ((ops.splitOn ";").filter (· ≠ "")) []))
   | _ => none
 
 end Driver
